@@ -42,6 +42,10 @@ RANGE_PANIC_METHODS = {
     "core::iter::traits::iterator::Iterator::step_by": "step_by",
     "core::slice::<impl [T]>::chunks": "chunks", "core::slice::<impl [T]>::windows": "chunks",
 }
+# infallible-looking From/Into conversions of third-party types that are documented to panic on some inputs
+PARTIAL_CONVERSIONS = [
+    ("[u8; 64", "ed25519::Signature", "ed25519 1.x: From<[u8; 64]> for Signature panics when the three high bits of byte 63 are set"),
+]
 ARITH_ASSERTS = ("Overflow(", "OverflowNeg", "DivisionByZero", "RemainderByZero", "BoundsCheck")
 
 
@@ -89,6 +93,11 @@ def classify_block(b):
         if fn in RANGE_PANIC_METHODS and RANGE_PANIC_METHODS[fn] is not None:
             return (RANGE_PANIC_METHODS[fn], fn)
         inst = b.get("inst") or ""
+        if fn in ("core::convert::From::from", "core::convert::Into::into"):
+            ta = b.get("targs") or ""
+            for (src, dst, why) in PARTIAL_CONVERSIONS:
+                if src in ta and dst in ta:
+                    return ("partialconv", "%s (%s)" % (inst or fn, why))
         if fn in ("core::ops::arith::Add::add", "core::ops::arith::Sub::sub", "core::ops::arith::AddAssign::add_assign",
                   "core::ops::arith::SubAssign::sub_assign") and ("Instant" in inst or "SystemTime" in inst or "Duration" in inst):
             return ("timeadd", inst)
